@@ -53,6 +53,11 @@ CHECKS.update({
    text="All histories up to the depth bound over two subscribers (up to two live sessions each, re-attach with another notification URI) mixing valid requests with requests naming an unknown subscriber or an unknown / stale / foreign session reference; status, Location, echoes, body and notifications are checked per request, and every rejected request must leave balances, reservations, records, files and database writes unchanged.",
    ref="6 C12", note=TB_E1),
 })
+CHECKS.update({
+ "C10": dict(engine=E1, technique="explicit-state BFS over create/update/release histories on the real implementation from several presets of the global counter, plus delay-bounded schedule exploration of concurrent creates",
+   text="All histories up to the depth bound over subscriber identifiers that are prefixes of one another, consumer names that are empty or end in digits, and counter presets 0/9/99 with a macro operation that advances the counter across a digit boundary; after every transition all unreleased references must be pairwise different and usage addressed to a reference must sit in the record opened by that create. Concurrent creates are explored in schedule mode (see evidence).",
+   ref="6 C10", note=TB_E1),
+})
 NA_REASON = "check under construction (see DESIGN.md section 6)"
 
 m = {"version": 1, "setup_cmd": "./setup.sh",
